@@ -128,6 +128,11 @@ end
 
 def plainText (cfg : EncCfg) (s : Str) : Bool := escIf cfg s == s
 
+/-- a `nil` under the text key is written as the raw text `<nil>` -/
+def nullTextOk (cfg : EncCfg) (k : Str) : Val → Bool
+  | .null => !(k = cfg.textK && cfg.escape)
+  | _ => true
+
 mutual
 def Plain (cfg : EncCfg) : Val → Bool
   | .num t => !(numText t).isEmpty && plainText cfg (numText t)
@@ -140,10 +145,137 @@ def PlainList (cfg : EncCfg) : List Val → Bool
 def PlainEntries (cfg : EncCfg) : Entries → Bool
   | [] => true
   | (k, v) :: rest =>
-      (match v with
-        | .null => !(k = cfg.textK && cfg.escape)
-        | _ => true)
-      && Plain cfg v && PlainEntries cfg rest
+      nullTextOk cfg k v && Plain cfg v && PlainEntries cfg rest
 end
+
+/-! ### what comes back: the image of a value under encode-then-decode (default options) -/
+
+namespace Enc
+/-- the default decoder configuration (attribute prefix "-", text key "#text", no cast, trim) -/
+def dc : DecCfg := {}
+/-- the default encoder configuration with value escaping on -/
+def ec : EncCfg := { escape := true }
+end Enc
+open Enc
+
+/-- `strings.Trim` with the default cut set of the decoder -/
+def trimD (s : Str) : Str := trimChars (trimSet dc) s
+
+/-- the `%v` text of a value in leaf position (`""` for lists and maps, which never sit there) -/
+def leafText (v : Val) : Str := (fmtV v).getD []
+
+/-- several values under one key become a list, a single one stays itself -/
+def collectV : List Val → Val
+  | [x] => x
+  | xs => .list xs
+
+/-- attribute entries come back as strings (untrimmed) under the same key -/
+def imageAttrs : Entries → Entries
+  | [] => []
+  | (k, v) :: rest =>
+      if isAttrK ec k then (k, .str ((attrValue v).getD [])) :: imageAttrs rest
+      else imageAttrs rest
+
+/-- the text-key entry comes back trimmed, and not at all when that leaves nothing -/
+def imageText (kvs : Entries) : Option Str :=
+  match lookup ec.textK kvs with
+  | some tv => if (trimD (leafText tv)).isEmpty then none else some (trimD (leafText tv))
+  | none => none
+
+/-- an element with nothing in it is `""`; with only text it is the text; otherwise a map -/
+def finishImage (base : Entries) (txt : Option Str) : Val :=
+  match txt with
+  | none => if base.isEmpty then .str [] else .map base
+  | some t => if base.isEmpty then .str t else .map (base ++ [(ec.textK, .str t)])
+
+mutual
+/-- the values a value contributes under its key, as repeated siblings in order -/
+def imageSibs : Val → List Val
+  | .list xs => if xs.isEmpty then [.str []] else imageMembers xs
+  | .map kvs => [finishImage (imageAttrs kvs ++ imageElems kvs) (imageText kvs)]
+  | .null => [.str []]
+  | .str s => [.str (trimD s)]
+  | .num t => [.str (trimD (numText t))]
+  | .bool b => [.str (trimD (leafText (.bool b)))]
+/-- nested lists are flattened: every member contributes its own siblings -/
+def imageMembers : List Val → List Val
+  | [] => []
+  | x :: xs => imageSibs x ++ imageMembers xs
+/-- entries that are neither attributes nor the text key: imaged and grouped under their key -/
+def imageElems : Entries → Entries
+  | [] => []
+  | (k, v) :: rest =>
+      if k = ec.textK || isAttrK ec k then imageElems rest
+      else (k, collectV (imageSibs v)) :: imageElems rest
+end
+
+/-- what a value stored under some key comes back as -/
+def image (v : Val) : Val := collectV (imageSibs v)
+
+/-- … seen from the parent: the one-entry map `{key: image v}` -/
+def imageUnder (key : Str) (v : Val) : Val := .map [(key, image v)]
+
+/-- the decoding conventions applied to a sequence of sibling trees: every element's value
+    (`Conv.value`) under its key, repeated keys grouped into lists in document order -/
+def siblingsValue (cfg : DecCfg) (S : Strconv) (ns : List Node) : Val :=
+  .map (Conv.groupOnto [] (Conv.childVals cfg S 0 ns))
+
+/-! ### domains -/
+
+/-- a string, number or boolean -/
+def isScalar (v : Val) : Bool := (attrValue v).isSome
+
+mutual
+/-- the values the encoder accepts (and then round-trips to `image`): maps have distinct keys,
+    attribute values and text-key values are scalars -/
+def EncDomain : Val → Bool
+  | .list xs => EncDomainList xs
+  | .map kvs => distinctKeys kvs && EncDomainEntries kvs
+  | _ => true
+def EncDomainList : List Val → Bool
+  | [] => true
+  | x :: xs => EncDomain x && EncDomainList xs
+def EncDomainEntries : Entries → Bool
+  | [] => true
+  | (k, v) :: rest =>
+      (if isAttrK ec k || k = ec.textK then isScalar v else EncDomain v) && EncDomainEntries rest
+end
+
+/-- `s` is already trimmed -/
+def trimmed (s : Str) : Bool := trimD s == s
+
+def isStr : Val → Bool
+  | .str _ => true
+  | _ => false
+
+/-- a text-key entry the decoder can have produced: a non-empty trimmed string -/
+def textEntryOk : Val → Bool
+  | .str s => trimmed s && !s.isEmpty
+  | _ => false
+
+mutual
+/-- the shape of what the decoder stores under a key (default options): a trimmed string; a
+    map that is non-empty, has distinct keys and more than just a text entry, whose attribute
+    entries are strings, whose text entry is a non-empty trimmed string and whose other entries
+    are again of this shape; or a list of at least two such non-list values -/
+def DecodedChild : Val → Bool
+  | .str s => trimmed s
+  | .map kvs => distinctKeys kvs && kvs.any (fun e => e.1 != ec.textK) && DecodedEntries kvs
+  | .list xs => decide (2 ≤ xs.length) && DecodedList xs
+  | _ => false
+def DecodedList : List Val → Bool
+  | [] => true
+  | x :: xs => !x.isList && DecodedChild x && DecodedList xs
+def DecodedEntries : Entries → Bool
+  | [] => true
+  | (k, v) :: rest =>
+      (if isAttrK ec k then isStr v
+       else if k = ec.textK then textEntryOk v
+       else DecodedChild v)
+      && DecodedEntries rest
+end
+
+/-- the shape of an element's value: as above, but not a list -/
+def Decoded (v : Val) : Bool := !v.isList && DecodedChild v
 
 end Mxj
